@@ -1,1 +1,797 @@
-fn main() {}
+//! C15 correspondence harness: the REAL compio-tls (native-tls/openssl and rustls back-ends, client and
+//! server role in one process) and the REAL compio-ws, over harness-built transports that play a generated
+//! schedule. See lean/Drivers/C15.lean for the line protocol and notes/C15.md.
+//!
+//! TLS cases
+//!
+//!     tls be=<ossl|rustls> tr=<direct|astream> lim=<n> buf=<0|1> cap=<n> pr=<pat> pw=<pat> pf=<pat>
+//!     xfer <c2s|s2c> <len> <seed>
+//!     close <c|s>
+//!
+//! * `tr=direct`  : an in-memory duplex implementing the futures-io traits (what compio-tls is generic over);
+//!   `buf=1` makes it *buffering*: written bytes sit in the endpoint until `poll_flush`/`poll_close`.
+//! * `tr=astream` : an in-memory duplex implementing compio-io's `AsyncRead`/`AsyncWrite`, wrapped in the
+//!   real `compio_io::compat::AsyncStream` (always buffering: `SyncStream` write buffer).
+//! * `lim`  per-call transfer limit, `cap` capacity of one direction (0 = unbounded),
+//!   `pr`/`pw`/`pf` cyclic Pending patterns of the read / write / flush(+close) calls (`1` = this call returns
+//!   `Pending` after arranging a wake-up, `0` = the call is performed); every pattern contains a `0` (fairness).
+//!
+//! WebSocket cases (compio-ws is sealed to `PollFd` transports, so these run on a compio runtime over a
+//! socketpair pair with a harness relay in the middle that plays the schedule)
+//!
+//!     ws tls=<none|ossl|rustls> lim=<n> gap=<n>
+//!     msg <c2s|s2c> <text|bin|ping> <len> <seed>
+//!     wsclose <c|s>
+//!
+//! Output lines are canonical outcomes only (never ciphertext, never poll counts).
+//! Monitors (implementation-only): `C15:stuck` (nobody runnable, not finished), `C15:spin` (poll budget
+//! exceeded), `C15:data-mismatch`, `C15:error` (unexpected io error), `C15:close`.
+
+use std::{
+    cell::RefCell,
+    collections::VecDeque,
+    future::Future,
+    io,
+    pin::Pin,
+    rc::Rc,
+    sync::{
+        Arc,
+        atomic::{AtomicBool, AtomicU64, Ordering},
+    },
+    task::{Context, Poll, Wake, Waker},
+};
+
+use compio_buf::{BufResult, IoBuf, IoBufMut, SetLenExt};
+use compio_io::compat::AsyncStream;
+use compio_tls::{TlsAcceptor, TlsConnector, TlsStream};
+use futures_util::{AsyncRead, AsyncReadExt, AsyncWrite, AsyncWriteExt};
+use hx_common::*;
+
+#[path = "c15/ws.rs"]
+mod ws;
+
+// ---------------------------------------------------------------------------------------------
+// schedule
+
+#[derive(Clone, Debug)]
+pub struct Pat {
+    bits: Vec<bool>,
+    pos: usize,
+}
+
+impl Pat {
+    fn parse(s: &str) -> Pat {
+        let bits: Vec<bool> = s.bytes().map(|b| b == b'1').collect();
+        assert!(!bits.is_empty() && bits.iter().any(|b| !b), "unfair pattern {s}");
+        Pat { bits, pos: 0 }
+    }
+
+    /// true = this call must return Pending
+    fn tick(&mut self) -> bool {
+        let b = self.bits[self.pos];
+        self.pos = (self.pos + 1) % self.bits.len();
+        b
+    }
+}
+
+#[derive(Clone, Debug)]
+struct Sched {
+    lim: usize,
+    cap: usize,
+    buffering: bool,
+    pr: Pat,
+    pw: Pat,
+    pf: Pat,
+}
+
+#[derive(Default, Debug)]
+struct Stats {
+    calls: u64,
+    pend_sched: u64,
+    pend_real: u64,
+    /// a read found the pipe empty while this endpoint held unflushed bytes
+    blocked_read_unflushed: u64,
+    flushes: u64,
+    closes: u64,
+}
+
+/// one direction of the duplex
+#[derive(Default)]
+struct Pipe {
+    q: VecDeque<u8>,
+    closed: bool,
+    rwaker: Option<Waker>,
+    wwaker: Option<Waker>,
+    moved: u64,
+}
+
+type PipeRef = Rc<RefCell<Pipe>>;
+
+/// The transport core shared by the futures-io flavour and the compio-io flavour.
+struct Core {
+    tx: PipeRef,
+    rx: PipeRef,
+    wbuf: Vec<u8>,
+    s: Sched,
+    st: Rc<RefCell<Stats>>,
+}
+
+fn self_wake(cx: &mut Context<'_>) {
+    cx.waker().wake_by_ref();
+}
+
+impl Core {
+    fn poll_read(&mut self, cx: &mut Context<'_>, buf: &mut [u8]) -> Poll<io::Result<usize>> {
+        self.st.borrow_mut().calls += 1;
+        if self.s.pr.tick() {
+            self.st.borrow_mut().pend_sched += 1;
+            self_wake(cx);
+            return Poll::Pending;
+        }
+        let mut rx = self.rx.borrow_mut();
+        if rx.q.is_empty() {
+            if rx.closed || buf.is_empty() {
+                return Poll::Ready(Ok(0));
+            }
+            rx.rwaker = Some(cx.waker().clone());
+            let mut st = self.st.borrow_mut();
+            st.pend_real += 1;
+            if !self.wbuf.is_empty() {
+                st.blocked_read_unflushed += 1;
+            }
+            return Poll::Pending;
+        }
+        let n = self.s.lim.min(buf.len()).min(rx.q.len());
+        for b in buf.iter_mut().take(n) {
+            *b = rx.q.pop_front().unwrap();
+        }
+        if let Some(w) = rx.wwaker.take() {
+            w.wake();
+        }
+        Poll::Ready(Ok(n))
+    }
+
+    /// move up to `n` bytes of `data` into the peer's pipe, respecting the capacity
+    fn push(tx: &mut Pipe, cap: usize, data: &[u8]) -> usize {
+        let room = if cap == 0 { usize::MAX } else { cap.saturating_sub(tx.q.len()) };
+        let n = data.len().min(room);
+        tx.q.extend(&data[..n]);
+        tx.moved += n as u64;
+        if n > 0
+            && let Some(w) = tx.rwaker.take()
+        {
+            w.wake();
+        }
+        n
+    }
+
+    fn poll_write(&mut self, cx: &mut Context<'_>, buf: &[u8]) -> Poll<io::Result<usize>> {
+        self.st.borrow_mut().calls += 1;
+        if self.s.pw.tick() {
+            self.st.borrow_mut().pend_sched += 1;
+            self_wake(cx);
+            return Poll::Pending;
+        }
+        if buf.is_empty() {
+            return Poll::Ready(Ok(0));
+        }
+        let mut tx = self.tx.borrow_mut();
+        if tx.closed {
+            return Poll::Ready(Err(io::ErrorKind::BrokenPipe.into()));
+        }
+        let n = self.s.lim.min(buf.len());
+        if self.s.buffering {
+            self.wbuf.extend_from_slice(&buf[..n]);
+            return Poll::Ready(Ok(n));
+        }
+        let m = Self::push(&mut tx, self.s.cap, &buf[..n]);
+        if m == 0 {
+            tx.wwaker = Some(cx.waker().clone());
+            self.st.borrow_mut().pend_real += 1;
+            return Poll::Pending;
+        }
+        Poll::Ready(Ok(m))
+    }
+
+    fn poll_flush(&mut self, cx: &mut Context<'_>) -> Poll<io::Result<()>> {
+        {
+            let mut st = self.st.borrow_mut();
+            st.calls += 1;
+            st.flushes += 1;
+        }
+        if self.s.pf.tick() {
+            self.st.borrow_mut().pend_sched += 1;
+            self_wake(cx);
+            return Poll::Pending;
+        }
+        self.drain(cx)
+    }
+
+    fn drain(&mut self, cx: &mut Context<'_>) -> Poll<io::Result<()>> {
+        if !self.wbuf.is_empty() {
+            let mut tx = self.tx.borrow_mut();
+            let m = Self::push(&mut tx, self.s.cap, &self.wbuf);
+            self.wbuf.drain(..m);
+            if !self.wbuf.is_empty() {
+                tx.wwaker = Some(cx.waker().clone());
+                self.st.borrow_mut().pend_real += 1;
+                return Poll::Pending;
+            }
+        }
+        Poll::Ready(Ok(()))
+    }
+
+    fn poll_close(&mut self, cx: &mut Context<'_>) -> Poll<io::Result<()>> {
+        {
+            let mut st = self.st.borrow_mut();
+            st.calls += 1;
+            st.closes += 1;
+        }
+        if self.s.pf.tick() {
+            self.st.borrow_mut().pend_sched += 1;
+            self_wake(cx);
+            return Poll::Pending;
+        }
+        std::task::ready!(self.drain(cx))?;
+        let mut tx = self.tx.borrow_mut();
+        tx.closed = true;
+        if let Some(w) = tx.rwaker.take() {
+            w.wake();
+        }
+        Poll::Ready(Ok(()))
+    }
+}
+
+/// futures-io flavour
+struct Direct(Core);
+
+impl AsyncRead for Direct {
+    fn poll_read(mut self: Pin<&mut Self>, cx: &mut Context<'_>, buf: &mut [u8]) -> Poll<io::Result<usize>> {
+        self.0.poll_read(cx, buf)
+    }
+}
+
+impl AsyncWrite for Direct {
+    fn poll_write(mut self: Pin<&mut Self>, cx: &mut Context<'_>, buf: &[u8]) -> Poll<io::Result<usize>> {
+        self.0.poll_write(cx, buf)
+    }
+
+    fn poll_flush(mut self: Pin<&mut Self>, cx: &mut Context<'_>) -> Poll<io::Result<()>> {
+        self.0.poll_flush(cx)
+    }
+
+    fn poll_close(mut self: Pin<&mut Self>, cx: &mut Context<'_>) -> Poll<io::Result<()>> {
+        self.0.poll_close(cx)
+    }
+}
+
+/// compio-io flavour: the two halves share the core
+struct CRead(Rc<RefCell<Core>>);
+struct CWrite(Rc<RefCell<Core>>);
+
+impl compio_io::AsyncRead for CRead {
+    async fn read<B: IoBufMut>(&mut self, mut buf: B) -> BufResult<usize, B> {
+        let core = self.0.clone();
+        let cap = buf.as_uninit().len();
+        let mut tmp = vec![0u8; cap];
+        let res = std::future::poll_fn(|cx| core.borrow_mut().poll_read(cx, &mut tmp)).await;
+        match res {
+            Ok(n) => {
+                for (d, s) in buf.as_uninit().iter_mut().zip(&tmp[..n]) {
+                    d.write(*s);
+                }
+                unsafe { buf.advance_to(n) };
+                BufResult(Ok(n), buf)
+            }
+            Err(e) => BufResult(Err(e), buf),
+        }
+    }
+}
+
+impl compio_io::AsyncWrite for CWrite {
+    async fn write<T: IoBuf>(&mut self, buf: T) -> BufResult<usize, T> {
+        let core = self.0.clone();
+        let res = std::future::poll_fn(|cx| core.borrow_mut().poll_write(cx, buf.as_init())).await;
+        BufResult(res, buf)
+    }
+
+    async fn flush(&mut self) -> io::Result<()> {
+        let core = self.0.clone();
+        std::future::poll_fn(|cx| core.borrow_mut().poll_flush(cx)).await
+    }
+
+    async fn shutdown(&mut self) -> io::Result<()> {
+        let core = self.0.clone();
+        std::future::poll_fn(|cx| core.borrow_mut().poll_close(cx)).await
+    }
+}
+
+type AStream = Pin<Box<AsyncStream<(CRead, CWrite)>>>;
+
+fn mk_cores(s: &Sched) -> (Core, Core, [Rc<RefCell<Stats>>; 2], [PipeRef; 2]) {
+    let a2b: PipeRef = Default::default();
+    let b2a: PipeRef = Default::default();
+    let sa: Rc<RefCell<Stats>> = Default::default();
+    let sb: Rc<RefCell<Stats>> = Default::default();
+    let a = Core { tx: a2b.clone(), rx: b2a.clone(), wbuf: vec![], s: s.clone(), st: sa.clone() };
+    let b = Core { tx: b2a.clone(), rx: a2b.clone(), wbuf: vec![], s: s.clone(), st: sb.clone() };
+    (a, b, [sa, sb], [a2b, b2a])
+}
+
+// ---------------------------------------------------------------------------------------------
+// manual executor: round-robin over tasks whose wake flag is set
+
+struct TaskWake {
+    flag: AtomicBool,
+    wakes: AtomicU64,
+}
+
+impl Wake for TaskWake {
+    fn wake(self: Arc<Self>) {
+        self.wake_by_ref()
+    }
+
+    fn wake_by_ref(self: &Arc<Self>) {
+        self.flag.store(true, Ordering::SeqCst);
+        self.wakes.fetch_add(1, Ordering::SeqCst);
+    }
+}
+
+#[derive(Debug, PartialEq, Clone, Copy)]
+enum RunEnd {
+    Done,
+    Stuck,
+    Spin,
+}
+
+struct RunReport {
+    end: RunEnd,
+    polls: Vec<u64>,
+}
+
+fn run_tasks(tasks: Vec<Pin<Box<dyn Future<Output = ()> + '_>>>, budget: u64) -> RunReport {
+    let n = tasks.len();
+    let mut tasks: Vec<Option<Pin<Box<dyn Future<Output = ()> + '_>>>> = tasks.into_iter().map(Some).collect();
+    let wakes: Vec<Arc<TaskWake>> =
+        (0..n).map(|_| Arc::new(TaskWake { flag: AtomicBool::new(true), wakes: AtomicU64::new(0) })).collect();
+    let wakers: Vec<Waker> = wakes.iter().map(|w| Waker::from(w.clone())).collect();
+    let mut polls = vec![0u64; n];
+    let mut total = 0u64;
+    loop {
+        let mut progressed = false;
+        for i in 0..n {
+            if tasks[i].is_none() || !wakes[i].flag.swap(false, Ordering::SeqCst) {
+                continue;
+            }
+            progressed = true;
+            polls[i] += 1;
+            total += 1;
+            let mut cx = Context::from_waker(&wakers[i]);
+            if tasks[i].as_mut().unwrap().as_mut().poll(&mut cx).is_ready() {
+                tasks[i] = None;
+            }
+        }
+        if tasks.iter().all(|t| t.is_none()) {
+            return RunReport { end: RunEnd::Done, polls };
+        }
+        if !progressed {
+            return RunReport { end: RunEnd::Stuck, polls };
+        }
+        if total > budget {
+            return RunReport { end: RunEnd::Spin, polls };
+        }
+    }
+}
+
+// ---------------------------------------------------------------------------------------------
+// TLS material (generated once per process; never part of an output line)
+
+struct Material {
+    ossl_acceptor: TlsAcceptor,
+    ossl_connector: TlsConnector,
+    rustls_acceptor: TlsAcceptor,
+    rustls_connector: TlsConnector,
+}
+
+fn material() -> Material {
+    use compio_tls::{native_tls, rustls};
+    use rustls::pki_types::{PrivateKeyDer, pem::PemObject};
+    let rcgen::CertifiedKey { cert, signing_key } = rcgen::generate_simple_self_signed(vec!["localhost".into()]).unwrap();
+    let ossl_acceptor = TlsAcceptor::from(
+        native_tls::TlsAcceptor::builder(
+            native_tls::Identity::from_pkcs8(cert.pem().as_bytes(), signing_key.serialize_pem().as_bytes()).unwrap(),
+        )
+        .build()
+        .unwrap(),
+    );
+    let ossl_connector = TlsConnector::from(
+        native_tls::TlsConnector::builder()
+            .add_root_certificate(native_tls::Certificate::from_pem(cert.pem().as_bytes()).unwrap())
+            .build()
+            .unwrap(),
+    );
+    let provider = Arc::new(rustls::crypto::ring::default_provider());
+    let rustls_acceptor = TlsAcceptor::from(Arc::new(
+        rustls::ServerConfig::builder_with_provider(provider.clone())
+            .with_safe_default_protocol_versions()
+            .unwrap()
+            .with_no_client_auth()
+            .with_single_cert(
+                vec![cert.der().clone()],
+                PrivateKeyDer::from_pem_slice(signing_key.serialize_pem().as_bytes()).unwrap(),
+            )
+            .unwrap(),
+    ));
+    let mut store = rustls::RootCertStore::empty();
+    store.add(cert.der().clone()).unwrap();
+    let rustls_connector = TlsConnector::from(Arc::new(
+        rustls::ClientConfig::builder_with_provider(provider)
+            .with_safe_default_protocol_versions()
+            .unwrap()
+            .with_root_certificates(store)
+            .with_no_client_auth(),
+    ));
+    Material { ossl_acceptor, ossl_connector, rustls_acceptor, rustls_connector }
+}
+
+// ---------------------------------------------------------------------------------------------
+// scripts
+
+pub fn payload(len: usize, seed: u64) -> Vec<u8> {
+    let mut r = Rng::new(seed ^ 0xC15);
+    let mut v = Vec::with_capacity(len);
+    while v.len() < len {
+        let x = r.next().to_le_bytes();
+        let k = (len - v.len()).min(8);
+        v.extend_from_slice(&x[..k]);
+    }
+    v
+}
+
+#[derive(Clone, Debug)]
+enum Step {
+    /// (this side writes?, len, seed)
+    Xfer(bool, usize, u64),
+    /// this side initiates the close?
+    Close(bool),
+}
+
+#[derive(Clone, Debug, PartialEq)]
+enum StepRes {
+    NotReached,
+    Running(u64),
+    Ok(u64),
+    Mismatch(u64),
+    Err(String),
+}
+
+fn kind(e: &io::Error) -> String {
+    format!("{:?}", e.kind())
+}
+
+/// One endpoint's whole life: handshake, then its half of every step.
+async fn endpoint<T, HF>(hs: HF, steps: Vec<Step>, res: Rc<RefCell<Vec<StepRes>>>)
+where
+    T: AsyncRead + AsyncWrite + Unpin,
+    HF: Future<Output = io::Result<TlsStream<T>>>,
+{
+    res.borrow_mut()[0] = StepRes::Running(0);
+    let mut s = match hs.await {
+        Ok(s) => s,
+        Err(e) => {
+            res.borrow_mut()[0] = StepRes::Err(kind(&e));
+            return;
+        }
+    };
+    res.borrow_mut()[0] = StepRes::Ok(0);
+    for (i, st) in steps.iter().enumerate() {
+        let slot = i + 1;
+        res.borrow_mut()[slot] = StepRes::Running(0);
+        let r: io::Result<StepRes> = async {
+            match *st {
+                Step::Xfer(true, len, seed) => {
+                    let data = payload(len, seed);
+                    s.write_all(&data).await?;
+                    s.flush().await?;
+                    Ok(StepRes::Ok(len as u64))
+                }
+                Step::Xfer(false, len, seed) => {
+                    let want = payload(len, seed);
+                    let mut got = 0usize;
+                    let mut buf = vec![0u8; 8192];
+                    let mut bad = false;
+                    while got < len {
+                        let room = (len - got).min(buf.len());
+                        let n = s.read(&mut buf[..room]).await?;
+                        if n == 0 {
+                            return Err(io::ErrorKind::UnexpectedEof.into());
+                        }
+                        if buf[..n] != want[got..got + n] {
+                            bad = true;
+                        }
+                        got += n;
+                        res.borrow_mut()[slot] = StepRes::Running(got as u64);
+                    }
+                    Ok(if bad { StepRes::Mismatch(got as u64) } else { StepRes::Ok(got as u64) })
+                }
+                Step::Close(true) => {
+                    s.close().await?;
+                    res.borrow_mut()[slot] = StepRes::Running(1);
+                    let mut b = [0u8; 16];
+                    let n = s.read(&mut b).await?;
+                    Ok(if n == 0 { StepRes::Ok(0) } else { StepRes::Mismatch(n as u64) })
+                }
+                Step::Close(false) => {
+                    let mut b = [0u8; 16];
+                    let n = s.read(&mut b).await?;
+                    if n != 0 {
+                        return Ok(StepRes::Mismatch(n as u64));
+                    }
+                    res.borrow_mut()[slot] = StepRes::Running(1);
+                    s.close().await?;
+                    Ok(StepRes::Ok(0))
+                }
+            }
+        }
+        .await;
+        match r {
+            Ok(v) => res.borrow_mut()[slot] = v,
+            Err(e) => {
+                res.borrow_mut()[slot] = StepRes::Err(kind(&e));
+                return;
+            }
+        }
+    }
+    // keep the stream alive until the task ends (dropping it is not part of the property)
+    drop(s);
+}
+
+fn kv<'a>(toks: &'a [&'a str], k: &str) -> &'a str {
+    toks.iter().find_map(|t| t.strip_prefix(k).and_then(|r| r.strip_prefix('='))).unwrap_or_else(|| panic!("missing {k}"))
+}
+
+struct TlsCase {
+    be: String,
+    tr: String,
+    sched: Sched,
+    steps: Vec<(String, Step, Step)>, // (line kind, client step, server step)
+}
+
+fn parse_tls(lines: &[String]) -> TlsCase {
+    let t: Vec<&str> = lines[0].split_whitespace().collect();
+    let sched = Sched {
+        lim: kv(&t, "lim").parse().unwrap(),
+        cap: kv(&t, "cap").parse().unwrap(),
+        buffering: kv(&t, "buf") == "1",
+        pr: Pat::parse(kv(&t, "pr")),
+        pw: Pat::parse(kv(&t, "pw")),
+        pf: Pat::parse(kv(&t, "pf")),
+    };
+    let mut steps = vec![];
+    for l in &lines[1..] {
+        let w: Vec<&str> = l.split_whitespace().collect();
+        match w[0] {
+            "xfer" => {
+                let c2s = w[1] == "c2s";
+                let len: usize = w[2].parse().unwrap();
+                let seed: u64 = w[3].parse().unwrap();
+                steps.push(("xfer".to_string(), Step::Xfer(c2s, len, seed), Step::Xfer(!c2s, len, seed)));
+            }
+            "close" => {
+                let c = w[1] == "c";
+                steps.push(("close".to_string(), Step::Close(c), Step::Close(!c)));
+            }
+            other => panic!("bad tls line {other}"),
+        }
+    }
+    TlsCase { be: kv(&t, "be").to_string(), tr: kv(&t, "tr").to_string(), sched, steps }
+}
+
+fn budget_for(c: &TlsCase) -> u64 {
+    let total: u64 = c
+        .steps
+        .iter()
+        .map(|s| if let Step::Xfer(_, n, _) = s.1 { n as u64 } else { 0 })
+        .sum::<u64>()
+        + 40_000; // handshake + close records, generously
+    let period = (c.sched.pr.bits.len() + c.sched.pw.bits.len() + c.sched.pf.bits.len()) as u64;
+    // every byte may need its own transport call (lim) and every call may be preceded by `period` Pendings;
+    // TLS record overhead < 2x for lim >= 1.  x8 slack.
+    200_000 + 8 * 2 * (total / c.sched.lim as u64 + 1) * (period + 1)
+}
+
+fn exec_tls(m: &Material, case: &Case, ex: &mut Exec) {
+    let c = parse_tls(&case.lines);
+    let (conn, acc) = match c.be.as_str() {
+        "ossl" => (m.ossl_connector.clone(), m.ossl_acceptor.clone()),
+        "rustls" => (m.rustls_connector.clone(), m.rustls_acceptor.clone()),
+        o => panic!("backend {o}"),
+    };
+    let nsteps = c.steps.len();
+    let rc: Rc<RefCell<Vec<StepRes>>> = Rc::new(RefCell::new(vec![StepRes::NotReached; nsteps + 1]));
+    let rs: Rc<RefCell<Vec<StepRes>>> = Rc::new(RefCell::new(vec![StepRes::NotReached; nsteps + 1]));
+    let csteps: Vec<Step> = c.steps.iter().map(|s| s.1.clone()).collect();
+    let ssteps: Vec<Step> = c.steps.iter().map(|s| s.2.clone()).collect();
+    let (a, b, stats, pipes) = mk_cores(&c.sched);
+    let budget = budget_for(&c);
+    let rep = match c.tr.as_str() {
+        "direct" => {
+            let (ta, tb) = (Direct(a), Direct(b));
+            let t1: Pin<Box<dyn Future<Output = ()>>> =
+                Box::pin(endpoint(async { conn.connect("localhost", ta).await }, csteps, rc.clone()));
+            let t2: Pin<Box<dyn Future<Output = ()>>> = Box::pin(endpoint(async { acc.accept(tb).await }, ssteps, rs.clone()));
+            run_tasks(vec![t1, t2], budget)
+        }
+        "astream" => {
+            let mk = |core: Core| -> AStream {
+                let core = Rc::new(RefCell::new(core));
+                Box::pin(AsyncStream::new((CRead(core.clone()), CWrite(core))))
+            };
+            let (ta, tb) = (mk(a), mk(b));
+            let t1: Pin<Box<dyn Future<Output = ()>>> =
+                Box::pin(endpoint(async { conn.connect("localhost", ta).await }, csteps, rc.clone()));
+            let t2: Pin<Box<dyn Future<Output = ()>>> = Box::pin(endpoint(async { acc.accept(tb).await }, ssteps, rs.clone()));
+            run_tasks(vec![t1, t2], budget)
+        }
+        o => panic!("transport {o}"),
+    };
+    let rc = rc.borrow().clone();
+    let rs = rs.borrow().clone();
+    let endword = match rep.end {
+        RunEnd::Done => "done",
+        RunEnd::Stuck => "stuck",
+        RunEnd::Spin => "spin",
+    };
+    let detail = |what: &str| {
+        format!(
+            "{what} end={endword} case=[{}] client={:?} server={:?} polls={:?} calls={}/{} moved c2s={} s2c={} unflushed-blocked-reads={}/{}",
+            case.lines.join(" | "),
+            rc,
+            rs,
+            rep.polls,
+            stats[0].borrow().calls,
+            stats[1].borrow().calls,
+            pipes[0].borrow().moved,
+            pipes[1].borrow().moved,
+            stats[0].borrow().blocked_read_unflushed,
+            stats[1].borrow().blocked_read_unflushed,
+        )
+    };
+    // one output line per case line
+    let mut first_bad: Option<String> = None;
+    for i in 0..=nsteps {
+        let (a, b) = (&rc[i], &rs[i]);
+        let word = if i == 0 { "hs" } else { c.steps[i - 1].0.as_str() };
+        let line = match (a, b) {
+            (StepRes::Ok(x), StepRes::Ok(y)) => {
+                if i == 0 {
+                    "hs ok".to_string()
+                } else if word == "xfer" {
+                    if x != y {
+                        ex.fail("C15:data-mismatch", detail(&format!("step {i}: written {x} read {y}")));
+                    }
+                    format!("xfer ok {}", x.max(y))
+                } else {
+                    "close ok".to_string()
+                }
+            }
+            (StepRes::Mismatch(_), _) | (_, StepRes::Mismatch(_)) => {
+                ex.fail(if word == "close" { "C15:close" } else { "C15:data-mismatch" }, detail(&format!("step {i}")));
+                format!("{word} mismatch")
+            }
+            (StepRes::Err(e), _) | (_, StepRes::Err(e)) => {
+                if first_bad.is_none() {
+                    ex.fail("C15:error", detail(&format!("step {i}: {e}")));
+                }
+                format!("{word} err")
+            }
+            (StepRes::NotReached, StepRes::NotReached) if first_bad.is_some() => format!("{word} skip"),
+            _ => {
+                if first_bad.is_none() {
+                    match rep.end {
+                        RunEnd::Spin => ex.fail("C15:spin", detail(&format!("step {i}"))),
+                        _ => ex.fail("C15:stuck", detail(&format!("step {i}"))),
+                    }
+                }
+                if rep.end == RunEnd::Spin { format!("{word} spin") } else { format!("{word} stuck") }
+            }
+        };
+        if !line.ends_with(" ok") && !line.contains(" ok ") && first_bad.is_none() {
+            first_bad = Some(line.clone());
+        }
+        ex.out.push(line);
+    }
+    ex.tag(format!("tls:{}:{}", c.be, c.tr));
+    ex.tag(format!("lim:{}", c.sched.lim));
+    if c.sched.buffering || c.tr == "astream" {
+        ex.tag("buffering");
+    }
+    if stats[0].borrow().blocked_read_unflushed + stats[1].borrow().blocked_read_unflushed > 0 {
+        ex.tag("read-blocked-with-unflushed");
+    }
+    if stats[0].borrow().pend_sched + stats[1].borrow().pend_sched > 0 {
+        ex.tag("sched-pending");
+    }
+    if std::env::var_os("C15_PROBE").is_some() {
+        eprintln!("{}", detail("probe"));
+    }
+    ex.nontrivial = rc[0] == StepRes::Ok(0) && nsteps > 0;
+}
+
+// ---------------------------------------------------------------------------------------------
+// generator
+
+fn gen_pat(r: &mut Rng) -> String {
+    (*r.pick(&["0", "0", "0", "10", "110", "01", "1110", "100"])).to_string()
+}
+
+fn gen_tls(r: &mut Rng, thorough: bool) -> Vec<String> {
+    let be = *r.pick(&["ossl", "rustls"]);
+    let tr = *r.pick(&["direct", "direct", "astream"]);
+    let lim = *r.pick(&[1usize, 7, 4096, 4096, 1 << 20]);
+    let buf = if tr == "direct" { r.below(2) } else { 0 };
+    let cap = if buf == 1 || tr == "astream" { 0 } else { *r.pick(&[0usize, 0, 64, 5000]) };
+    let mut lines =
+        vec![format!("tls be={be} tr={tr} lim={lim} buf={buf} cap={cap} pr={} pw={} pf={}", gen_pat(r), gen_pat(r), gen_pat(r))];
+    let maxlen: u64 = match (lim, thorough) {
+        (1, false) => 2_000,
+        (1, true) => 40_000,
+        (7, false) => 20_000,
+        (7, true) => 200_000,
+        (_, false) => 70_000,
+        (_, true) => 1 << 20,
+    };
+    let n = r.below(4);
+    for _ in 0..n {
+        let len = match r.below(6) {
+            0 => 0,
+            1 => r.range(1, 40),
+            2 => *r.pick(&[16383u64, 16384, 16385, 8192, 8193]),
+            3 => r.range(0, maxlen),
+            _ => r.range(0, maxlen.min(5000)),
+        }
+        .min(maxlen);
+        lines.push(format!("xfer {} {} {}", if r.chance(1, 2) { "c2s" } else { "s2c" }, len, r.below(1000)));
+    }
+    if r.chance(3, 4) {
+        lines.push(format!("close {}", if r.chance(1, 2) { "c" } else { "s" }));
+    }
+    lines
+}
+
+fn generate(tier: &str, rng: &mut Rng) -> Vec<Case> {
+    let thorough = tier == "thorough";
+    let mut cases = vec![];
+    let n_tls = if thorough { 6000 } else { 500 };
+    for i in 0..n_tls {
+        cases.push(Case { name: format!("tls{i}"), lines: gen_tls(rng, thorough) });
+    }
+    let n_ws = if thorough { 600 } else { 60 };
+    for i in 0..n_ws {
+        cases.push(Case { name: format!("ws{i}"), lines: ws::gen_ws(rng, thorough) });
+    }
+    cases
+}
+
+fn main() {
+    let m = material();
+    run_harness(
+        generate,
+        |case| {
+            let mut ex = Exec::new();
+            let r = catch(|| {
+                if case.lines[0].starts_with("tls ") {
+                    exec_tls(&m, case, &mut ex)
+                } else {
+                    ws::exec_ws(&m.rustls_acceptor, &m.rustls_connector, &m.ossl_acceptor, &m.ossl_connector, case, &mut ex)
+                }
+            });
+            if let Err(p) = r {
+                ex.out = case.lines.iter().map(|_| "panic".to_string()).collect();
+                ex.fail("C15:panic", format!("{p} case=[{}]", case.lines.join(" | ")));
+            }
+            ex
+        },
+        "handshake completed on both sides and the case has at least one transfer/close step",
+    );
+}
